@@ -134,7 +134,7 @@ theorem liqCond_exact {p : Portfolio} (h : liqCond NumCtx.exact p = true) :
   | some x =>
     rw [hh] at h
     simp only [XRat.gtB, XRat.ltB, Gen.arHfLiqThreshold, Bool.and_eq_true, decide_eq_true_eq] at h
-    exact ⟨x, rfl, h.1, by simpa using h.2⟩
+    exact ⟨x, rfl, h.1, of_decide_eq_true h.2⟩
 
 theorem weightedLt_exact (p : Portfolio) :
     weightedLt NumCtx.exact p = ((collaterals p).map (fun s => s.value NumCtx.exact * s.row.lt)).sum := by
@@ -270,6 +270,209 @@ theorem liqLoop_exact_inv : ∀ (fuel : Nat) (p : Portfolio) (vis : List String)
         rw [liqLoop_eq]; simp [hc]
       rw [key]
       exact ⟨rfl, hwf, [], by simp, Trace.nil p⟩
+
+theorem unv_nil (ks : List String) : unv ks [] = ks.length := by
+  unfold unv; simp
+
+theorem liqCond_of_hf {p : Portfolio} {x : Rat} (h : healthFactor NumCtx.exact p = some x) (h0 : 0 < x) (h1 : x < 1) :
+    liqCond NumCtx.exact p = true := by
+  unfold liqCond; rw [h]
+  simp [XRat.gtB, XRat.ltB, Gen.arHfLiqThreshold, h0, h1]
+
+theorem liqCond_false_exact {p : Portfolio} (h : liqCond NumCtx.exact p = false) :
+    healthFactor NumCtx.exact p = none ∨ ∃ x, healthFactor NumCtx.exact p = some x ∧ (x ≤ 0 ∨ 1 ≤ x) := by
+  cases hh : healthFactor NumCtx.exact p with
+  | none => exact Or.inl rfl
+  | some x =>
+    right
+    refine ⟨x, rfl, ?_⟩
+    by_contra hcon
+    rw [not_or, not_le, not_le] at hcon
+    rw [liqCond_of_hf hh hcon.1 hcon.2] at h; cases h
+
+/-- a finite health factor that is not positive means that no collateral is left -/
+theorem no_collateral_of_hf_nonpos {p : Portfolio} (hwf : p.WF) {x : Rat} (h : healthFactor NumCtx.exact p = some x)
+    (hx : x ≤ 0) : ∀ s ∈ collaterals p, s.base = 0 := by
+  unfold healthFactor safeDiv at h
+  split at h
+  · cases h
+  · rename_i htd
+    simp only [Option.some.injEq, NumCtx.exact_div] at h
+    have htd0 : 0 ≤ totalDebt NumCtx.exact p := by
+      rw [totalDebt_exact]; exact sum_map_nonneg _ _ (fun d hd => hwf.debt_value_nonneg hd)
+    have htdpos : 0 < totalDebt NumCtx.exact p := lt_of_le_of_ne htd0 (Ne.symm htd)
+    have hw : weightedLt NumCtx.exact p ≤ 0 := by
+      have : weightedLt NumCtx.exact p = x * totalDebt NumCtx.exact p := by
+        rw [← h]; field_simp
+      rw [this]; exact mul_nonpos_of_nonpos_of_nonneg hx htd0
+    rw [weightedLt_exact] at hw
+    have hterm : ∀ s ∈ collaterals p, 0 ≤ s.value NumCtx.exact * s.row.lt := by
+      intro s hs
+      have hs' : s ∈ p.supplies := (List.mem_filter.mp hs).1
+      have := hwf.supply_value_nonneg hs'
+      have := (hwf.sup s hs').2.1.lt_nonneg
+      positivity
+    intro s hs
+    have hz := sum_map_eq_zero_of_nonneg _ _ hterm hw s hs
+    have hs' : s ∈ p.supplies := (List.mem_filter.mp hs).1
+    obtain ⟨_, hr, hlt⟩ := hwf.sup s hs'
+    have hcoll : s.coll = true := by simpa using (List.mem_filter.mp hs).2
+    have hltpos := hlt hcoll
+    have hli := hr.li_pos; have hpr := hr.price_pos
+    rw [Supply.value_exact] at hz
+    have : s.base * (s.row.liqIndex * s.row.price * s.row.lt) = 0 := by rw [← hz]; ring
+    rcases mul_eq_zero.mp this with h0 | h0
+    · exact h0
+    · exact absurd h0 (ne_of_gt (by positivity))
+
+end AaveRisk
+
+/-! ## the property theorems about the loop -/
+
+/-- **Only below 1.**  Unless `0 < HF < 1` (with `HEALTH_FACTOR_LIQUIDATION_THRESHOLD = 1`) `update()` changes nothing
+    and records nothing — in every arithmetic context. -/
+theorem C12_no_liquidation_unless_below_one (cx : NumCtx) (p : Portfolio) (h : liqCond cx p = false) :
+    liquidate cx p = ⟨p, [], [], none, false⟩ ∧ Gen.arHfLiqThreshold = 1 := by
+  refine ⟨?_, rfl⟩
+  unfold liquidate; rw [liqLoop_eq]; simp [h]
+
+/-- **Liquidated iff HF < 1.**  For a well-formed portfolio whose debt entries are positive, `update()` records at
+    least one liquidation if and only if the health factor at the end of the bar is finite and in (0, 1).
+    (HF = 0 with debt means there is no collateral to seize, `no_collateral_of_hf_nonpos`.) -/
+theorem C12_liquidates_iff (p : Portfolio) (hwf : p.WF) (hpos : ∀ d ∈ p.debts, 0 < d.base) :
+    (liquidate NumCtx.exact p).actions ≠ [] ↔ ∃ x, healthFactor NumCtx.exact p = some x ∧ 0 < x ∧ x < 1 := by
+  constructor
+  · intro h
+    by_contra hcon
+    have hc : liqCond NumCtx.exact p = false := by
+      cases hh : liqCond NumCtx.exact p with
+      | false => rfl
+      | true => exact absurd (liqCond_exact hh) hcon
+    rw [(C12_no_liquidation_unless_below_one _ p hc).1] at h
+    exact h rfl
+  · rintro ⟨x, hx, h0, h1⟩
+    have hc := liqCond_of_hf hx h0 h1
+    unfold liquidate
+    cases hpd : pickDebt NumCtx.exact p.debts [] with
+    | none =>
+      -- no debt at all: the health factor would be infinite
+      have hall := pickDebt_none hpd
+      have hnil : p.debts = [] := by
+        cases hds : p.debts with
+        | nil => rfl
+        | cons d r => have := hall d (by rw [hds]; simp); simp at this
+      unfold healthFactor safeDiv at hx
+      rw [totalDebt_exact, hnil] at hx
+      simp at hx
+    | some y =>
+      obtain ⟨d, v⟩ := y
+      obtain ⟨hd, _, hv⟩ := pickDebt_some hpd
+      have hv0 : 0 ≤ v := hv ▸ hwf.debt_value_nonneg hd
+      cases hpc : (pickColl NumCtx.exact p.supplies).1 with
+      | none => exact absurd hpc (pickColl_ne_none hwf hc)
+      | some c =>
+        obtain ⟨hcm, hcc⟩ := pickColl_some hpc
+        cases hdo : doLiquidate NumCtx.exact p c d v with
+        | rejected => exact absurd hdo (doLiquidate_not_rejected hwf hcm hcc hd (hpos d hd))
+        | raised e q => exact absurd hdo (doLiquidate_not_raised hwf hcm hd hv0 e q)
+        | done p' a =>
+          have key : liqLoop NumCtx.exact (p.debts.length + 1) p [] []
+              = liqLoop NumCtx.exact p.debts.length p' ([] ++ [d.tok]) ([] ++ [a]) := by
+            rw [liqLoop_eq]; simp [hc, hpd, hpc, hdo]
+          rw [key]
+          have hok : StepOk p c d (d.value NumCtx.exact) p' a := ⟨hwf, hcm, hd, hv ▸ hv0, hv ▸ hdo⟩
+          obtain ⟨_, _, as, h3, _⟩ := liqLoop_exact_inv p.debts.length p' ([] ++ [d.tok]) ([] ++ [a])
+            (C12_amounts_nonneg hok).2.2.2.2
+          rw [h3]; simp
+
+/-- **The model's fuel is enough**: the loop runs at most once per debt, in every arithmetic context (so the
+    `while` loop of `_liquidate` terminates). -/
+theorem C12_fuel_suffices (cx : NumCtx) (p : Portfolio) : (liquidate cx p).outOfFuel = false := by
+  unfold liquidate
+  exact (liqLoop_inv cx _ p [] [] (by rw [unv_nil]; simp) List.nodup_nil (by simp)).1
+
+/-- **Every debt visited at most once**, in every arithmetic context: `has_liquidated` has no duplicates, the debt
+    tokens of the recorded actions are distinct and form a subsequence of it, and there are at most `#debts` attempts. -/
+theorem C12_each_debt_once (cx : NumCtx) (p : Portfolio) :
+    (liquidate cx p).visited.Nodup
+    ∧ ((liquidate cx p).actions.map (·.debtTok)).Sublist (liquidate cx p).visited
+    ∧ ((liquidate cx p).actions.map (·.debtTok)).Nodup
+    ∧ (liquidate cx p).visited.length ≤ p.debts.length
+    ∧ (liquidate cx p).actions.length ≤ p.debts.length := by
+  unfold liquidate
+  obtain ⟨_, h2, h3, h4, _⟩ := liqLoop_inv cx (p.debts.length + 1) p [] [] (by rw [unv_nil]; simp) List.nodup_nil (by simp)
+  rw [unv_nil] at h4
+  simp only [List.length_nil, List.length_map, Nat.zero_add] at h4
+  refine ⟨h2, h3, h3.nodup h2, h4, ?_⟩
+  have := h3.length_le
+  simp only [List.length_map] at this
+  omega
+
+/-- **How the loop can end**, in every arithmetic context: if no exception leaves `update()`, then either the loop
+    condition `0 < HF < 1` is false at the end, or every remaining debt has been visited. -/
+theorem C12_ends (cx : NumCtx) (p : Portfolio) (h : (liquidate cx p).err = none) :
+    liqCond cx (liquidate cx p).p = false ∨ ∀ d ∈ (liquidate cx p).p.debts, d.tok ∈ (liquidate cx p).visited := by
+  unfold liquidate at h ⊢
+  exact (liqLoop_inv cx (p.debts.length + 1) p [] [] (by rw [unv_nil]; simp) List.nodup_nil (by simp)).2.2.2.2 h
+
+/-- **Termination without error.**  On a well-formed portfolio (exact context) `update()` raises nothing, leaves a
+    well-formed portfolio and ends with: no debt (HF infinite), HF ≥ 1, no collateral left, or every remaining debt
+    visited (once, `C12_each_debt_once`). -/
+theorem C12_terminates (p : Portfolio) (hwf : p.WF) :
+    (liquidate NumCtx.exact p).err = none ∧ (liquidate NumCtx.exact p).outOfFuel = false
+    ∧ (liquidate NumCtx.exact p).p.WF
+    ∧ (healthFactor NumCtx.exact (liquidate NumCtx.exact p).p = none
+       ∨ (∃ x, healthFactor NumCtx.exact (liquidate NumCtx.exact p).p = some x ∧ 1 ≤ x)
+       ∨ (∀ s ∈ collaterals (liquidate NumCtx.exact p).p, s.base = 0)
+       ∨ (∀ d ∈ (liquidate NumCtx.exact p).p.debts, d.tok ∈ (liquidate NumCtx.exact p).visited)) := by
+  have hinv : (liquidate NumCtx.exact p).err = none ∧ (liquidate NumCtx.exact p).p.WF := by
+    unfold liquidate
+    obtain ⟨h1, h2, _⟩ := liqLoop_exact_inv (p.debts.length + 1) p [] [] hwf
+    exact ⟨h1, h2⟩
+  refine ⟨hinv.1, C12_fuel_suffices _ p, hinv.2, ?_⟩
+  rcases C12_ends NumCtx.exact p hinv.1 with hc | hall
+  · rcases liqCond_false_exact hc with hn | ⟨x, hx, hle | hge⟩
+    · exact Or.inl hn
+    · exact Or.inr (Or.inr (Or.inl (no_collateral_of_hf_nonpos hinv.2 hx hle)))
+    · exact Or.inr (Or.inl ⟨x, hx, hge⟩)
+  · exact Or.inr (Or.inr (Or.inr hall))
+
+/-- **Every recorded liquidation is a proper step**: on a well-formed portfolio the actions recorded by `update()` are a
+    chain `p = p₀ →a₁ p₁ →a₂ … →aₙ pₙ = final`, each `aᵢ` the result of a successful `_do_liquidate` on entries of
+    `pᵢ₋₁` (well formed, `0 < HF(pᵢ₋₁) < 1`, value to cover = the debt's value), so `C12_close_factor`,
+    `C12_seized_value`, `C12_amounts_nonneg`, `C12_state_change`, `C12_record_matches`, `C12_net_value` hold for
+    each of them. -/
+theorem C12_every_step (p : Portfolio) (hwf : p.WF) :
+    Trace p (liquidate NumCtx.exact p).actions (liquidate NumCtx.exact p).p := by
+  unfold liquidate
+  obtain ⟨_, _, as, h3, h4⟩ := liqLoop_exact_inv (p.debts.length + 1) p [] [] hwf
+  rw [h3]; simpa using h4
+
+/-! ### non-vacuity -/
+namespace AaveRisk
+
+/-- 10 WETH (index 2) against 8400 USDC, WETH at 1000 USD: HF 0.98 → one 50 % step, HF 1.098 afterwards -/
+def exLoopCheck : Bool :=
+  let r := liquidate NumCtx.exact exP
+  r.actions.length == 1 && r.err.isNone && !r.outOfFuel && r.visited == ["USDC"]
+    && (healthFactor NumCtx.exact exP).ltB 1 && (healthFactor NumCtx.exact r.p).gtB 1
+
+example : exLoopCheck = true := by decide +kernel
+example : Trace exP (liquidate NumCtx.exact exP).actions (liquidate NumCtx.exact exP).p := C12_every_step exP exP_wf
+
+/-- two debts, one of them cheap (price 1/2, so the value handed in as "amount to cover" is only half of the amount):
+    both debts are visited, the health factor stays below 1 and the loop ends because every debt has been visited -/
+def exRowM : Row := { liqIndex := 1, borIndex := 1, price := 1 / 2, ltv := 6 / 10, lt := 7 / 10, bonus := 1 / 10, canColl := true, canBorrow := true }
+def exP2 : Portfolio :=
+  { supplies := [{ tok := "WETH", base := 5, coll := true, row := exRowW }],
+    debts := [{ tok := "MATIC", base := 18000, row := exRowM }, { tok := "USDC", base := 100, row := exRowU }] }
+
+def exLoopCheck2 : Bool :=
+  let r := liquidate NumCtx.exact exP2
+  r.actions.length == 2 && r.err.isNone && !r.outOfFuel && r.visited == ["USDC", "MATIC"]
+    && (healthFactor NumCtx.exact r.p).ltB 1 && (healthFactor NumCtx.exact r.p).gtB 0 && r.p.debts.length == 1
+
+example : exLoopCheck2 = true := by decide +kernel
 
 end AaveRisk
 end Demeter
